@@ -226,17 +226,27 @@ pub fn run(ctx: &mut Ctx) {
     // ---- the real read loop + replay over loopback TCP, written in chosen segments ---------------------
     let rt = tokio::runtime::Builder::new_multi_thread().worker_threads(2).enable_all().build().unwrap();
     let n_loop = if ctx.thorough() { 120 } else { 24 };
-    for i in 0..n_loop {
-        let (class, h, truth) = &hellos[(i * 7) % hellos.len()];
+    // hellos that fill most of the 16 KiB prebuffer, delivered whole (they need 16 reads of 1 KiB)
+    let big: Vec<usize> = (0..hellos.len()).filter(|k| hellos[*k].1.len() > 15 * 1024 + 100 && hellos[*k].1.len() < 16380 && hellos[*k].0 != "fragmented").take(3).collect();
+    let order: Vec<usize> = big.iter().cloned().chain((0..n_loop).map(|i| (i * 7) % hellos.len())).collect();
+    for (i, hi) in order.into_iter().enumerate() {
+        let i = if i < big.len() { 5 } else { i - big.len() }; // whole delivery, 17-byte consumer reads for the big ones
+        let (class, h, truth) = &hellos[hi];
         // keep away from the 16 KiB cap where the answer legitimately depends on timing
-        if h.len() > 15000 && h.len() < 17500 && class != "fragmented" {
+        let mut stream = h.clone();
+        let extra = if i == 5 && h.len() > 15 * 1024 { 0 } else { *ctx.rng.pick(&[0usize, 5, 300]) };
+        stream.extend(ctx.rng.bytes(extra));
+        // the loop looks at the buffer before each read and stops when 16 KiB are buffered: a hello ending in
+        // the last KiB of a stream that fills the buffer is found or not depending on how the reads fall (the
+        // property allows "absent" there); everything else is decided by the bytes alone
+        if class != "fragmented" && h.len() > 15 * 1024 && stream.len() >= 16 * 1024 {
+            ctx.stat("loop_skipped_timing_dependent");
             continue;
         }
-        let mut stream = h.clone();
-        let extra = *ctx.rng.pick(&[0usize, 5, 300]);
-        stream.extend(ctx.rng.bytes(extra));
         let n = stream.len();
         let mut cuts: Vec<usize> = match i % 4 {
+            // a hello that arrives in many small segments (more reads than the prebuffer has kilobytes)
+            0 if n < 1500 => (1..n / 24).map(|k| k * 24).collect(),
             0 => vec![],
             1 => vec![ctx.rng.below(n as u64) as usize],
             2 => vec![5.min(n), 9.min(n), 43.min(n), 44.min(n)],
@@ -274,6 +284,9 @@ pub fn run(ctx: &mut Ctx) {
         });
         match res {
             Ok(Ok((random, pre_len, replay))) => {
+                if std::env::var("C12_DEBUG").is_ok() && stream.len() > 15000 {
+                    eprintln!("loop: class {} hello {} stream {} cuts {:?} -> random {:?} prebuffer {}", class, h.len(), stream.len(), cuts, random.as_ref().map(|r| r.len()), pre_len);
+                }
                 if replay != stream {
                     ctx.oracle_failure("replay_not_transparent", &format!(
                         "sent {} bytes in segments cut at {:?}; wrapped stream yielded {} bytes (first difference at {:?}), prebuffer {}",
